@@ -1045,3 +1045,41 @@ def check_trajectory_axis(ctx, rule="STAT"):
                    f"`{U(c)[:80]}` filters along {'axis ' + U(ax) if ax is not None else 'the default (last) axis'}: for vector attributes (position) the coordinates of one time point are mixed instead of smoothing over time")
     if not calls:
         ctx.undecided(rule, q, fi, "no 1-d filter found")
+
+
+def check_self_alias_iteration(ctx, rule="ALIAS"):
+    """A method that grows `self` while iterating over one of its parameters must iterate over a snapshot: the parameter may be
+    the collection itself (`e.extend(e)`), and a list that is appended to while it is iterated never ends."""
+    m = ctx.model
+    n = 0
+    for cname in ("Emulsion", "EmulsionTimeCourse", "DropletTrack", "DropletTrackList"):
+        ci = m.cls(cname)
+        for name, lst in ci.methods.items():
+            if name in ("__init__", "__new__"):
+                continue  # a new object cannot be its own argument
+            for fi in lst:
+                if fi.cls is not ci or isinstance(fi.node, ast.Lambda):
+                    continue
+                fv = view(m, fi)
+                params = set(fi.all_params) - {"self", "cls"}
+                for lp in [s_ for s_ in fv.statements() if isinstance(s_, ast.For)]:
+                    it = fv.expand(lp.iter, lp)
+                    if not (isinstance(it, ast.Name) and it.id in params):
+                        continue
+                    grows = [c for c in ast.walk(lp) if isinstance(c, ast.Call) and isinstance(c.func, ast.Attribute) and c.func.attr in ("append", "extend", "insert", "add")
+                             and (U(c.func.value) == "self" or U(c.func.value).startswith("self.") or U(c.func.value) == "super()")]
+                    if not grows:
+                        continue
+                    n += 1
+                    ctx.violate(rule, f"{fi.qualname}:iterates-argument", (fi, lp),
+                                f"`for {U(lp.target)} in {it.id}` appends to self while iterating over the argument itself: `x.{name}(x)` does not terminate (a list model doubles the "
+                                "content); iterate over a snapshot (list(...)) of the argument")
+                for lp in [s_ for s_ in fv.statements() if isinstance(s_, ast.For)]:
+                    it = fv.expand(lp.iter, lp)
+                    if isinstance(it, ast.Call) and U(it.func) in ("list", "tuple") and len(it.args) == 1 and isinstance(it.args[0], ast.Name) and it.args[0].id in params:
+                        grows = [c for c in ast.walk(lp) if isinstance(c, ast.Call) and isinstance(c.func, ast.Attribute) and c.func.attr in ("append", "extend", "insert", "add")
+                                 and (U(c.func.value) == "self" or U(c.func.value).startswith("self.") or U(c.func.value) == "super()")]
+                        if grows:
+                            n += 1
+                            ctx.hold(rule, f"{fi.qualname}:iterates-argument", (fi, lp), "grows self while iterating over a snapshot of the argument")
+    return n
